@@ -9,4 +9,13 @@ if ! cargo build --release --offline >/verif/.target/build.log 2>&1; then
   echo "MACHINERY-ERROR build failed" >&2
   exit 2
 fi
+case "$1" in
+  C17|c17|replay)
+    # C17 also runs in the checked profile (release + debug assertions + overflow checks in every crate)
+    if ! cargo build --profile checked --offline >/verif/.target/build-checked.log 2>&1; then
+      tail -40 /verif/.target/build-checked.log >&2
+      echo "MACHINERY-ERROR build (checked profile) failed" >&2
+      exit 2
+    fi ;;
+esac
 exec /verif/.target/release/blsful-mc "$@"
